@@ -36,6 +36,34 @@ var Pool = []string{
 	"prefix-shared-0123456789-0123456789-a", "prefix-shared-0123456789-0123456789-b", "prefix-shared-0123456789-0123456789-",
 	"key@10", "key@9", "key", "#", "?", "[", "aA", "a@0", "@1", "1",
 	strings.Repeat("L", 200),
+	// multi-byte UTF-8 neighbours: equal up to a lead byte, different continuation byte; a code
+	// point whose value equals a byte of the neighbour (U+00C3 after 0xC3 ...)
+	"ключ-а", "ключ-д", "PÁO", "PÃO", "é", "è", "\u00c3\u0083", "日本", "日曜",
+	// long keys that only differ after their first 64 / 100 bytes
+	strings.Repeat("p", 70) + "-1", strings.Repeat("p", 70) + "-2", strings.Repeat("q", 100) + "/a", strings.Repeat("q", 100) + "/b",
+}
+
+// PoolBase is the part of the pool without the long / multi-byte families (checks that enumerate
+// all (key, ts) pairs keep their universes small).
+var PoolBase = Pool[:41]
+
+// Sibling names, for keys that only make an ordering / prefix trap together with another key,
+// that other key; generators add the sibling of a drawn key half of the time.
+var Sibling = map[string]string{}
+
+func init() {
+	pairs := [][2]string{
+		{"ключ-а", "ключ-д"}, {"PÁO", "PÃO"}, {"é", "è"}, {"日本", "日曜"},
+		{strings.Repeat("p", 70) + "-1", strings.Repeat("p", 70) + "-2"}, {strings.Repeat("q", 100) + "/a", strings.Repeat("q", 100) + "/b"},
+		{"prefix-shared-0123456789-0123456789-a", "prefix-shared-0123456789-0123456789-b"},
+		{"a", "a@1"}, {"a@1", "a@1@2"}, {"key", "key@10"}, {"key@10", "key@9"}, {"k1", "k10"}, {"a!", "a@"}, {"\x00", "\x00\x00"},
+	}
+	for _, p := range pairs {
+		Sibling[p[0]] = p[1]
+		if _, ok := Sibling[p[1]]; !ok {
+			Sibling[p[1]] = p[0]
+		}
+	}
 }
 
 // VKey builds the canonical versioned key the way every caller in the engine does.
